@@ -38,7 +38,7 @@ m = {
     "engines": [{"name": "gosym", "path": "engine", "serves_properties": claimed,
                  "kind_free_text": "own symbolic executor over go/ssa (x/tools v0.29.0): forking path exploration by re-execution, SMT-LIB2 to a long-lived z3 4.8.12 (z3-new/cvc5 fallback on unknown), every counterexample replayed natively before it is reported"}],
     "checks": checks,
-    "not_applicable": [{"property_id": p['id'], "reason": na[p['id']]} for p in props if p['id'] not in claimed],
+    "not_applicable": [{"property_id": p['id'], "reason": na.get(p['id'], "no check registered")} for p in props if p['id'] not in claimed],
     "notes": "exit 0 = all registered harnesses explored exhaustively within their bounds with every obligation discharged (open known findings print KNOWN-FINDING lines); exit 1 = natively reproduced counterexample (VIOLATION line); exit 2 = no verdict (engine could not decide: unsupported construct, bound hit, solver unknown, non-reproducing candidate).",
 }
 json.dump(m, open(os.path.join(root, 'MANIFEST.json'), 'w'), indent=1)
